@@ -206,6 +206,16 @@ def judge_keys(ctx, case):
     if not ok or g3[0].lower() != want_hex:
         fail(ctx, case, 'combine:duplicate_component_does_not_cancel', {'got': repr(g3)})
         return
+    # the same components again in this process with one of them given once more: it cancels, so the result is the XOR of
+    # the others (an answer remembered from the earlier calls with the same set of components would be wrong)
+    for j in (1, 0):
+        again = parts + [parts[j]]
+        want_again = ref.xor_components(again).hex()
+        ok, g4 = call(ctx, case, 'get_zone_master_key', K.get_zone_master_key, *again)
+        ctx.count('component given once more after an earlier call with the same set')
+        if not ok or g4[0].lower() != want_again or g4[1] != ref.kcv(bytes.fromhex(want_again)):
+            fail(ctx, case, 'combine:component_given_twice_does_not_cancel_after_earlier_call', {'got': repr(g4), 'want': want_again})
+            return
     master = case['master']
     ok, got = call(ctx, case, 'get_enc_zone_master_key', K.get_enc_zone_master_key, master, *parts)
     if not ok:
@@ -217,6 +227,12 @@ def judge_keys(ctx, case):
     want_enc = refc.tdes_ecb_encrypt(bytes.fromhex(master), xor).hex()
     if enc_hex.lower() != want_enc or kcv2 != ref.kcv(xor):
         fail(ctx, case, 'encrypt_zone_key:differs_from_reference', {'got': enc_hex, 'want': want_enc, 'kcv': kcv2})
+        return
+    again = parts + [parts[-1]]
+    ok, got = call(ctx, case, 'get_enc_zone_master_key', K.get_enc_zone_master_key, master, *again)
+    want2 = refc.tdes_ecb_encrypt(bytes.fromhex(master), ref.xor_components(again)).hex()
+    if not ok or got[0].lower() != want2:
+        fail(ctx, case, 'encrypt_zone_key:component_given_twice_does_not_cancel_after_earlier_call', {'got': repr(got), 'want': want2})
         return
     if len(ctx.samples) < 6:
         ctx.sample({'components': parts, 'xor': want_hex, 'kcv': kcv, 'master_bytes': len(master) // 2, 'encrypted': want_enc})
